@@ -43,6 +43,8 @@ Print Assumptions static_ports_match.
 Print Assumptions other_ports_match.
 Print Assumptions port_layout_matches.
 Print Assumptions tag_tests_match.
+Print Assumptions edge_kinds_match.
+Print Assumptions inputs_must_connect_matches.
 EOF
 OUT=$(cd "$TMP" && timeout 300 coqc -Q "$COQ" HV $W RustTablesCheck.v 2>&1)
 rc=$?
@@ -50,5 +52,5 @@ rm -rf "$TMP"
 echo "$OUT"
 [ $rc -eq 0 ] || { echo "FAIL: Print Assumptions"; exit 1; }
 n=$(echo "$OUT" | grep -c "Closed under the global context")
-if [ "$n" -ne 20 ]; then echo "FAIL: $n of 20 theorems closed"; exit 1; fi
-echo "OK rust-tables: scanner accepted $REPO, 20 theorems closed under the global context"
+if [ "$n" -ne 22 ]; then echo "FAIL: $n of 22 theorems closed"; exit 1; fi
+echo "OK rust-tables: scanner accepted $REPO, 22 theorems closed under the global context"
